@@ -411,6 +411,17 @@ func TestC12Concurrent(t *testing.T) {
 			n := rapid.IntRange(5, 25).Draw(t, "nops")
 			for j := 0; j < n; j++ {
 				op := drawOp(t, ss)
+
+				// The same request may arrive twice: now and then a goroutine
+				// repeats the text another one was given (its own copy of it).
+				if i > 0 && rapid.IntRange(0, 3).Draw(t, "repeat-request") == 0 {
+					other := lists[rapid.IntRange(0, i-1).Draw(t, "repeat-of-goroutine")]
+					if o := other[rapid.IntRange(0, len(other)-1).Draw(t, "repeat-of-op")]; o.vals == nil {
+						op = o
+						op.payload = append([]byte(nil), o.payload...)
+					}
+				}
+
 				lists[i] = append(lists[i], op)
 				kinds[op.kind] = true
 
